@@ -241,7 +241,7 @@ func selectSubprotocol(r *http.Request, subprotocols []string) string {
 	cps := headerTokens(r.Header, "Sec-WebSocket-Protocol")
 	for _, sp := range subprotocols {
 		for _, cp := range cps {
-			if strings.EqualFold(sp, cp) {
+			if asciiEqualFold(sp, cp) {
 				return cp
 			}
 		}
